@@ -2591,3 +2591,241 @@ Section FilteredLawful.
       cbn [filter] in Ef. unfold fk at 1 in Ef. rewrite B in Ef. exact Ef.
   Qed.
 End FilteredLawful.
+
+(* ------------------------------------------------------------------------------------ *)
+(* Part 7: a scan interleaved with writers of other keys                                   *)
+(* ------------------------------------------------------------------------------------ *)
+
+Lemma first_val_ext : forall ke k cs cs',
+  Forall2 (fun c c' => forall k, k <> ke -> lookup k c' = lookup k c) cs cs' -> k <> ke ->
+  first_val k cs' = first_val k cs.
+Proof.
+  intros ke k cs cs' H Hk. induction H as [|c c' r r' Hc _ IH]; [reflexivity|].
+  cbn [first_val]. rewrite (Hc k Hk), IH. reflexivity.
+Qed.
+
+Lemma kstrict_snoc : forall l x, kstrict l -> (forall y, In y l -> klt y x) -> kstrict (l ++ [x]).
+Proof.
+  induction l as [|a l IH]; intros x Hs Hx; cbn [app]; [repeat constructor|].
+  inversion Hs as [|? ? Hs' Hf]; subst. constructor.
+  - apply IH; [exact Hs'|]. intros y Hy. apply Hx. right. exact Hy.
+  - apply Forall_app. split; [exact Hf|]. constructor; [apply Hx; left; reflexivity|constructor].
+Qed.
+
+Section ConcProofs.
+  Context {S : Type} (I : Iter S) (ok : S -> Prop) (content rest : S -> list kv).
+  Context (L : Lawful I ok content rest).
+  (* the keys no writer touches during the scan *)
+  Context (W : bytes -> Prop).
+
+  (* writer steps: the sources may change in any way that keeps them lawful and leaves the
+     entries of every key but the written one where they are *)
+  Fixpoint legal (h : hier S) (steps : list (cstep S)) : Prop :=
+    match steps with
+    | [] => True
+    | CNext :: r => legal (fst (hier_next I h)) r
+    | CWrite ke srcs' :: r =>
+        ~ W ke /\ Forall ok srcs' /\
+        Forall2 (fun s s' => forall k, k <> ke -> lookup k (rest s') = lookup k (rest s)) (h_srcs h) srcs' /\
+        legal (set_srcs h srcs') r
+    end.
+
+  Lemma rests_sorted : forall srcs, Forall ok srcs -> Forall ksorted (map rest srcs).
+  Proof.
+    intros srcs H. induction H as [|s r Hs Hr IH]; cbn [map]; constructor; [|exact IH].
+    apply (rest_sorted _ _ _ _ _ L s Hs).
+  Qed.
+
+  Variable cs0 : list (list kv).
+
+  Definition cinv (h : hier S) (out : list kv) : Prop :=
+    Forall ok (h_srcs h) /\ kstrict out /\
+    (h_valid h = true ->
+       (forall y, In y out -> blt (h_key h) (fst y) = false) /\
+       (forall k, W k -> blt (h_key h) k = true -> first_val k (map rest (h_srcs h)) = first_val k cs0)) /\
+    (forall k v, W k -> first_val k cs0 = Some v ->
+                 (h_valid h = true -> blt (h_key h) k = false) -> In (k, v) out).
+
+  (* landing on the smallest head of the re-positioned sources *)
+  Lemma cinv_land : forall (prev : option bytes) srcs' rests out,
+    Forall ok srcs' -> map rest srcs' = map (drop_prev prev) rests -> Forall ksorted rests ->
+    kstrict out ->
+    (forall y, In y out -> match prev with Some p => blt p (fst y) = false | None => False end) ->
+    (forall k, W k -> match prev with Some p => blt p k = true | None => True end ->
+               first_val k rests = first_val k cs0) ->
+    (forall k v, W k -> first_val k cs0 = Some v ->
+                 match prev with Some p => blt p k = false | None => False end -> In (k, v) out) ->
+    forall kh vh,
+    match hmin (map rest srcs') with
+    | Some x => cinv (mkH srcs' true (fst x) (snd x)) (out ++ [(fst x, snd x)])
+    | None => cinv (mkH srcs' false kh vh) out
+    end.
+  Proof.
+    intros prev srcs' rests out Hok Hr Hs Hst Hle Hw Hin kh vh.
+    assert (Hs' : Forall ksorted (map (drop_prev prev) rests)).
+    { destruct prev as [p|].
+      - change (drop_prev (Some p)) with (from_gt p). apply Forall_ksorted_from_gt. exact Hs.
+      - change (drop_prev None) with (fun l : list kv => l). rewrite map_id. exact Hs. }
+    assert (Fv : forall k, match prev with Some p => blt p k = true | None => True end ->
+                           first_val k (map (drop_prev prev) rests) = first_val k rests).
+    { intros k Hk. destruct prev as [p|].
+      - change (drop_prev (Some p)) with (from_gt p). rewrite first_val_from_gt by exact Hs. rewrite Hk. reflexivity.
+      - change (drop_prev None) with (fun l : list kv => l). rewrite map_id. reflexivity. }
+    rewrite Hr. destruct (hmin (map (drop_prev prev) rests)) as [[kx vx]|] eqn:Hm; cbn [fst snd].
+    - assert (Hgt : match prev with Some p => blt p kx = true | None => True end).
+      { destruct prev as [p|]; [|constructor]. change (drop_prev (Some p)) with (from_gt p) in Hm.
+        apply (hmin_from_gt_gt p rests (kx, vx) Hs Hm). }
+      pose proof (hmin_first_val _ _ Hs' Hm) as Fx. cbn [fst snd] in Fx.
+      unfold cinv. cbn [h_srcs h_valid h_key h_val]. split; [exact Hok|]. split; [|split].
+      + apply kstrict_snoc; [exact Hst|]. intros y Hy. specialize (Hle y Hy). unfold klt. cbn [fst].
+        destruct prev as [p|]; [|destruct Hle]. eapply le_lt_trans; eauto.
+      + intros _. split.
+        * intros y Hy. apply in_app_or in Hy. destruct Hy as [Hy|[<-|[]]]; [|apply blt_irrefl].
+          specialize (Hle y Hy). destruct prev as [p|]; [|destruct Hle]. cbn [fst].
+          apply blt_asym. eapply le_lt_trans; eauto.
+        * intros k Wk Hk. rewrite Hr.
+          assert (Hk' : match prev with Some p => blt p k = true | None => True end).
+          { destruct prev as [p|]; [|constructor]. eapply blt_trans; eauto. }
+          rewrite (Fv k Hk'). apply Hw; assumption.
+      + intros k v Wk Fk Hk. specialize (Hk eq_refl). apply in_or_app.
+        destruct (match prev with Some p => blt p k | None => true end) eqn:Pk.
+        * right. left.
+          assert (Hk' : match prev with Some p => blt p k = true | None => True end).
+          { destruct prev as [p|]; [exact Pk|constructor]. }
+          pose proof (Fv k Hk') as F1. rewrite (Hw k Wk Hk'), Fk in F1.
+          destruct (first_val_some_in _ _ _ F1) as (c & Hc & Hkc).
+          pose proof (hmin_le _ _ Hs' Hm c (k, v) Hc Hkc) as Le. cbn [fst] in Le.
+          assert (E : k = kx) by (apply le_antisym; assumption). subst k.
+          rewrite Fx in F1. injection F1 as ->. reflexivity.
+        * left. apply Hin; [exact Wk|exact Fk|]. destruct prev as [p|]; [exact Pk|discriminate].
+    - unfold cinv. cbn [h_srcs h_valid]. split; [exact Hok|]. split; [exact Hst|]. split; [discriminate|].
+      intros k v Wk Fk _.
+      destruct (match prev with Some p => blt p k | None => true end) eqn:Pk.
+      + exfalso.
+        assert (Hk' : match prev with Some p => blt p k = true | None => True end).
+        { destruct prev as [p|]; [exact Pk|constructor]. }
+        pose proof (Fv k Hk') as F1. rewrite (Hw k Wk Hk'), Fk in F1.
+        destruct (first_val_some_in _ _ _ F1) as (c & Hc & Hkc).
+        apply hmin_none_iff in Hm. rewrite Forall_forall in Hm. rewrite (Hm c Hc) in Hkc. destruct Hkc.
+      + apply Hin; [exact Wk|exact Fk|]. destruct prev as [p|]; [exact Pk|discriminate].
+  Qed.
+
+  Lemma cinv_next : forall h out, cinv h out ->
+    cinv (fst (hier_next I h)) (if h_valid h then out ++ hpos (fst (hier_next I h)) else out).
+  Proof.
+    intros h out (Hok & Hst & Hv & Hin). unfold hier_next. destruct (h_valid h) eqn:V.
+    - destruct (Hv eq_refl) as (Hle & Hw).
+      rewrite (find_next_spec I ok content rest L h (Some (h_key h)) Hok).
+      destruct (Forall_adv1 I ok content rest L (Some (h_key h)) (h_srcs h) Hok) as (Hok' & _ & Hr').
+      pose proof (cinv_land (Some (h_key h)) _ (map rest (h_srcs h)) out Hok' Hr'
+                    (rests_sorted _ Hok) Hst Hle Hw (fun k v Wk Fk Hk => Hin k v Wk Fk (fun _ => Hk))
+                    (h_key h) (h_val h)) as Ld.
+      destruct (hmin (map rest (map (adv1 I (Some (h_key h))) (h_srcs h)))) as [[kx vx]|]; cbn [fst snd] in *.
+      + unfold hpos. cbn [h_valid h_key h_val]. exact Ld.
+      + unfold hpos. cbn [h_valid]. rewrite app_nil_r. exact Ld.
+    - cbn [fst]. unfold cinv. rewrite V. repeat split; try assumption; discriminate.
+  Qed.
+
+  Lemma cinv_write : forall h out ke srcs', cinv h out -> ~ W ke -> Forall ok srcs' ->
+    Forall2 (fun s s' => forall k, k <> ke -> lookup k (rest s') = lookup k (rest s)) (h_srcs h) srcs' ->
+    cinv (set_srcs h srcs') out.
+  Proof.
+    intros h out ke srcs' (Hok & Hst & Hv & Hin) Hke Hok' Hf.
+    unfold cinv, set_srcs. cbn [h_srcs h_valid h_key h_val]. split; [exact Hok'|]. split; [exact Hst|].
+    split; [|exact Hin]. intros V. destruct (Hv V) as (Hle & Hw). split; [exact Hle|].
+    intros k Wk Hk. rewrite <- (Hw k Wk Hk). apply (first_val_ext ke).
+    - clear - Hf. induction Hf as [|s s' r r' Hs _ IH]; cbn [map]; constructor; assumption.
+    - intros ->. contradiction.
+  Qed.
+
+  Lemma cinv_run : forall steps h out, cinv h out -> legal h steps ->
+    cinv (fst (crun I h steps out)) (snd (crun I h steps out)).
+  Proof.
+    induction steps as [|st r IH]; intros h out Hc Hl; [exact Hc|]. destruct st as [|ke srcs']; cbn [crun legal] in *.
+    - apply IH; [apply cinv_next; exact Hc|exact Hl].
+    - destruct Hl as (Hke & Hok' & Hf & Hl). apply IH; [|exact Hl].
+      apply (cinv_write h out ke srcs'); assumption.
+  Qed.
+End ConcProofs.
+
+(* A scan over lawful sources, interleaved in any way with writers that leave the keys of W
+   alone: the surfaced keys are strictly ascending (no duplicates), and once the scan is
+   through, every key of W that the sources held at the start has been surfaced, with the
+   value (or deletion marker) the stack showed for it at the start. *)
+Theorem conc_scan : forall S (I : Iter S) ok content rest (L : Lawful I ok content rest)
+    (W : bytes -> Prop) srcs steps,
+  Forall ok srcs -> legal I ok rest W (hier_first I (hier_new srcs)) steps ->
+  let res := cscan I srcs steps in
+  kstrict (snd res) /\
+  (h_valid (fst res) = false ->
+   forall k v, W k -> first_val k (map content srcs) = Some v -> In (k, v) (snd res)).
+Proof.
+  intros S I ok content rest L W srcs steps Hok Hl res.
+  assert (C0 : cinv ok rest W (map content srcs) (hier_first I (hier_new srcs))
+                 (hpos (hier_first I (hier_new srcs)))).
+  { unfold hier_first. cbn [hier_new h_srcs h_valid h_key h_val].
+    destruct (first_sources I ok content rest L srcs Hok) as (Hok1 & Hc1 & Hr1).
+    set (h1 := mkH (map (i_first I) srcs) false [] None).
+    rewrite (find_next_spec I ok content rest L h1 None Hok1). cbn [h_srcs h1].
+    rewrite (map_adv1_none I).
+    assert (Hs : Forall ksorted (map content srcs)) by (apply (contents_sorted I ok content rest L); exact Hok).
+    pose proof (cinv_land ok rest W (map content srcs) None (map (i_first I) srcs)
+                  (map content srcs) [] Hok1
+                  ltac:(change (drop_prev None) with (fun l : list kv => l); rewrite map_id; exact Hr1) Hs
+                  ltac:(constructor) ltac:(intros y []) ltac:(intros; reflexivity)
+                  ltac:(intros k v _ _ []) [] None) as Ld.
+    destruct (hmin (map rest (map (i_first I) srcs))) as [[kx vx]|]; cbn [fst snd] in *.
+    - unfold hpos. cbn [h_valid h_key h_val]. exact Ld.
+    - unfold hpos. cbn [h_valid]. exact Ld. }
+  pose proof (cinv_run I ok content rest L W (map content srcs) steps _ _ C0 Hl) as (_ & Hst & _ & Hin).
+  fold (cscan I srcs steps) in Hst, Hin. fold res in Hst, Hin. split; [exact Hst|].
+  intros V k v Wk Fk. apply Hin; [exact Wk|exact Fk|]. rewrite V. discriminate.
+Qed.
+
+(* ---------- a memtable insert is such a writer step ---------- *)
+
+Lemma lookup_ins_at : forall k i e l, k <> fst e -> lookup k (ins_at i e l) = lookup k l.
+Proof.
+  intros k i e l Hk. revert l. induction i as [|n IH]; intros l.
+  - cbn [ins_at lookup]. assert (B : beq (fst e) k = false) by (apply beq_false_iff; congruence).
+    destruct l; cbn [ins_at lookup]; rewrite B; reflexivity.
+  - destruct l as [|x r]; cbn [ins_at lookup].
+    + assert (B : beq (fst e) k = false) by (apply beq_false_iff; congruence). rewrite B. reflexivity.
+    + rewrite IH. reflexivity.
+Qed.
+
+Lemma ins_at_app_le : forall i e a b, (i <= length a)%nat -> ins_at i e (a ++ b) = ins_at i e a ++ b.
+Proof.
+  induction i as [|n IH]; intros e a b H.
+  - destruct a; reflexivity.
+  - destruct a as [|x a]; [cbn [length] in H; lia|]. cbn [app ins_at]. rewrite IH by (cbn [length] in H; lia). reflexivity.
+Qed.
+
+Lemma ins_at_app_gt : forall i e a b, (length a < i)%nat -> b <> [] ->
+  ins_at i e (a ++ b) = a ++ ins_at (i - length a) e b.
+Proof.
+  intros i e a. revert i. induction a as [|x a IH]; intros i b H Hb.
+  - cbn [app length]. rewrite Nat.sub_0_r. reflexivity.
+  - destruct i as [|n]; [lia|]. cbn [app ins_at length]. rewrite IH by (cbn [length] in H; lia || exact Hb).
+    reflexivity.
+Qed.
+
+Theorem src_write_step : forall i e s, src_ok s -> s_kind s = KMem -> ksorted (ins_at i e (s_all s)) ->
+  src_ok (src_write i e s) /\
+  (forall k, k <> fst e -> lookup k (s_cur (src_write i e s)) = lookup k (s_cur s)) /\
+  (forall k, k <> fst e -> lookup k (s_all (src_write i e s)) = lookup k (s_all s)).
+Proof.
+  intros i e s (Hs & Hk & (pre & Ep)) Km Hsorted. unfold src_write. cbn [s_all s_cur s_kind].
+  assert (Hb : (length (s_all s) - length (s_cur s))%nat = length pre).
+  { rewrite Ep, app_length. lia. }
+  rewrite Hb. split; [|split].
+  - unfold src_ok. cbn [s_all s_cur s_kind]. split; [exact Hsorted|]. split; [left; exact Km|].
+    destruct (s_cur s) as [|x r] eqn:C.
+    + exists (ins_at i e (s_all s)). symmetry. apply app_nil_r.
+    + destruct (Nat.leb i (length pre)) eqn:Le.
+      * apply Nat.leb_le in Le. exists (ins_at i e pre). rewrite Ep. apply ins_at_app_le. exact Le.
+      * apply Nat.leb_gt in Le. exists pre. rewrite Ep. apply ins_at_app_gt; [exact Le|discriminate].
+  - intros k Hke. destruct (s_cur s) as [|x r]; [reflexivity|].
+    destruct (Nat.leb i (length pre)); [reflexivity|]. apply lookup_ins_at. exact Hke.
+  - intros k Hke. apply lookup_ins_at. exact Hke.
+Qed.
